@@ -1,10 +1,119 @@
-(* Props/C18.v — PLACEHOLDER written by the C18 correspondence sub-builder so that `./check C18 quick` can run.
-   The package owner overwrites this file with the C18 theorems (exact-arithmetic CP-ALS model).
-   The one statement below is a genuine closed lemma about the comparer used by the generated cases:
-   the tolerance test accepts two identical value lists (so a `false` verdict is never an artefact of the comparer). *)
-From Coq Require Import List QArith Qcanon.
-From PV Require Import Model.Harness Model.C18Cmp.
+(* Props/C18.v — decomposition results do not depend on how the problem is presented (PARTIAL: exact-arithmetic theorems about
+   the CP-ALS model of Model/C09Als.v + Model/C09Loop.v; the other algorithms are tied by metamorphic correspondence only).
+   Only statements, `exact`, Print Assumptions and non-vacuity examples. *)
+From Coq Require Import List Arith Bool ZArith Ring Lia QArith Qcanon.
+From PV Require Import Base.Index Base.Perm Base.Sum Np.Array Model.Sparse Model.Repr Model.Harness Model.C09Als Model.C09Loop Model.C18Cmp
+  Proofs.C09Identity Proofs.C09Monotone Proofs.C09Scaling Proofs.C09LoopProofs Proofs.C18Repr.
+Import ListNotations.
 
+Section C18.
+Variable V : Type.
+Variables (v0 v1 : V) (vadd vmul vsub : V -> V -> V) (vopp : V -> V).
+Hypothesis Vring : ring_theory v0 v1 vadd vmul vsub vopp (@eq V).
+Local Notation mx := (@matrix V).
+
+(* C18_repr: the sweep reads the data only through its mttkrp function: two holders with the same mttkrp give IDENTICAL iterates
+   (state, weights and saved mttkrp included) for every start, mode order, number of sweeps and all oracles *)
+Theorem C18_repr : forall (mk1 mk2 : list mx -> nat -> mx) (solve : mx -> mx -> mx) (scale : nat -> mx -> list V * mx) (R : nat),
+  (forall U n, mk1 U n = mk2 U n) ->
+  forall k dims st,
+  als_iter v0 v1 vadd vmul mk1 solve scale R k dims st = als_iter v0 v1 vadd vmul mk2 solve scale R k dims st.
+Proof. exact (iter_repr V v0 v1 vadd vmul). Qed.
+
+(* ... in particular holders (dense / sparse / Tucker / sum) that DENOTE the same array on the shape *)
+Theorem C18_repr_den : forall (s : shape) (X1 X2 : idx -> V) (solve : mx -> mx -> mx) (scale : nat -> mx -> list V * mx) R k dims st,
+  (forall i, inb s i = true -> X1 i = X2 i) ->
+  als_iter v0 v1 vadd vmul (fun U n => mttkrp_mat v0 v1 vadd vmul s X1 U n R) solve scale R k dims st =
+  als_iter v0 v1 vadd vmul (fun U n => mttkrp_mat v0 v1 vadd vmul s X2 U n R) solve scale R k dims st.
+Proof. exact (iter_repr_den V v0 v1 vadd vmul). Qed.
+
+(* C18_scale: data scaled by an invertible constant kappa (a positive constant of an ordered field), same start (or any start
+   that differs by invertible column scalings), ANY two column-scaling oracles: after every k+1 sweeps the model of the scaled
+   problem denotes kappa * the model of the original problem *)
+Theorem C18_scale : forall (R : nat) (X1 X2 : idx -> V) (kappa kappai : V), vmul kappa kappai = v1 ->
+  forall (mk1 mk2 : list mx -> nat -> mx) (solve1 solve2 : mx -> mx -> mx) (scale1 scale2 : nat -> mx -> list V * mx)
+         (s : shape) (dims : list nat) (st1 st2 : als_state V) (k : nat),
+  related V v0 v1 vmul R s st1 st2 ->
+  (forall i, inb s i = true -> X2 i = vmul kappa (X1 i)) -> dims <> [] ->
+  iter_hyps V v0 v1 vadd vmul R X1 X2 mk1 mk2 solve1 solve2 scale1 scale2 s (S k) dims st1 st2 ->
+  related V v0 v1 vmul R s (als_iter v0 v1 vadd vmul mk1 solve1 scale1 R (S k) dims st1)
+                              (als_iter v0 v1 vadd vmul mk2 solve2 scale2 R (S k) dims st2) /\
+  den_scaled V v0 v1 vadd vmul kappa s (als_iter v0 v1 vadd vmul mk1 solve1 scale1 R (S k) dims st1)
+                                     (als_iter v0 v1 vadd vmul mk2 solve2 scale2 R (S k) dims st2).
+Proof. exact (iter_equiv V v0 v1 vadd vmul vsub vopp Vring). Qed.
+
+(* ... and the fit is unchanged: (||X2-M2||/||X2||)^2 = (||X1-M1||/||X1||)^2, cross-multiplied *)
+Theorem C18_scale_fit : forall (s : shape) (X1 X2 M1 M2 : idx -> V) (kappa : V),
+  (forall i, inb s i = true -> X2 i = vmul kappa (X1 i)) -> (forall i, inb s i = true -> M2 i = vmul kappa (M1 i)) ->
+  vmul (resid_den v0 vadd vmul vsub s X2 M2) (normsq_den v0 vadd vmul s X1)
+  = vmul (resid_den v0 vadd vmul vsub s X1 M1) (normsq_den v0 vadd vmul s X2).
+Proof. exact (fit_scale_invariant V v0 v1 vadd vmul vsub vopp Vring). Qed.
+
+(* C18_relabel (denotation level): relabelling the modes of a Kruskal model by ANY permutation p relabels the array it denotes *)
+Theorem C18_relabel_den : forall (K : ktensor V) (p : list nat) (i : idx),
+  is_perm p (length (kfactors K)) -> length i = length (kfactors K) ->
+  den_k v0 v1 vadd vmul (mkK (kweights K) (pick [] p (kfactors K))) (pick 0%nat p i) = den_k v0 v1 vadd vmul K i.
+Proof. exact (denk_pick V v0 v1 vadd vmul vsub vopp Vring). Qed.
+
+(* full algorithm-level relabelling statement — NOT proved (kept visible; tied by the relabel.cp_als correspondence pairs):
+   running the sweep model on the permuted data, permuted start and consistently mapped mode order gives the permuted iterates *)
+Definition C18_relabel_stmt : Prop :=
+  forall (s : shape) (X : idx -> V) (p : list nat) (solve : mx -> mx -> mx) (scale : nat -> mx -> list V * mx) (R k : nat)
+         (dims : list nat) (st : als_state V),
+  is_perm p (length s) -> map (@nrows V) (st_U st) = s ->
+  let X' := fun i' => X (pick 0%nat (invperm p) i') in
+  let st' := mkAls (st_w st) (pick [] p (st_U st)) (st_P st) in
+  let dims' := map (fun m => index_of m p) dims in
+  let r := als_iter v0 v1 vadd vmul (fun U n => mttkrp_mat v0 v1 vadd vmul s X U n R) solve scale R k dims st in
+  let r' := als_iter v0 v1 vadd vmul (fun U n => mttkrp_mat v0 v1 vadd vmul (pick 0%nat p s) X' U n R) solve scale R k dims' st' in
+  st_w r' = st_w r /\ st_U r' = pick [] p (st_U r).
+End C18.
+
+(* C18_print: printing branches of cp_als (Model/C09Loop.v, transliterated branch by branch) never touch the model state:
+   for any two printing intervals the returned model, the iteration count and the whole fit trace are identical ... *)
+Section C18print.
+Variables (St F : Type) (sweep : nat -> St -> St) (fit_mttkrp fit_innerprod : St -> F * F)
+          (fchange_lt : F -> F -> F -> bool) (fit0 : F) (arrange fixsigns : St -> St).
+Local Notation RUN := (cpals_run sweep fit_mttkrp fit_innerprod fchange_lt fit0 arrange fixsigns).
+
+Theorem C18_print_state : forall tol p1 p2 s0 m dofix (r1 r2 : result St F),
+  RUN tol p1 s0 m dofix = Some r1 -> RUN tol p2 s0 m dofix = Some r2 ->
+  r_state r1 = r_state r2 /\ r_iters r1 = r_iters r2 /\ r_trace r1 = r_trace r2.
+Proof. exact (@cpals_print_indep_state St F sweep fit_mttkrp fit_innerprod fchange_lt fit0 arrange fixsigns). Qed.
+
+(* ... and the reported fit / residual too, provided the innerprod formula used when printing agrees with the saved-mttkrp
+   formula used otherwise (A-43) — which is theorem C09_fit_identity in exact arithmetic *)
+Theorem C18_print : forall tol p1 p2 s0 m dofix (r1 r2 : result St F),
+  (forall s, fit_innerprod (cpals_finish arrange fixsigns dofix s) = fit_mttkrp s) ->
+  RUN tol p1 s0 m dofix = Some r1 -> RUN tol p2 s0 m dofix = Some r2 ->
+  r_state r1 = r_state r2 /\ r_iters r1 = r_iters r2 /\ r_normres r1 = r_normres r2 /\ r_fit r1 = r_fit r2 /\ r_trace r1 = r_trace r2.
+Proof. exact (@cpals_print_indep St F sweep fit_mttkrp fit_innerprod fchange_lt fit0 arrange fixsigns). Qed.
+
+Theorem C18_print_silent : forall tol s0 m dofix (r : result St F), RUN tol 0 s0 m dofix = Some r -> r_log r = [].
+Proof. exact (@cpals_log_silent St F sweep fit_mttkrp fit_innerprod fchange_lt fit0 arrange fixsigns). Qed.
+End C18print.
+
+(* the comparer used by the generated metamorphic cases accepts identical value lists *)
 Theorem C18_cmp_refl : forall l : list Qc, qlists_close tol8 l l = true.
 Proof. intro l. exact (qlists_close_refl tol8 l tol8_nonneg). Qed.
+
+Print Assumptions C18_repr.
+Print Assumptions C18_repr_den.
+Print Assumptions C18_scale.
+Print Assumptions C18_scale_fit.
+Print Assumptions C18_relabel_den.
+Print Assumptions C18_print_state.
+Print Assumptions C18_print.
+Print Assumptions C18_print_silent.
 Print Assumptions C18_cmp_refl.
+
+(* non-vacuity: a non-symmetric 2x3x2 rank-2 model over Z and the non-involutive relabelling p = [1;2;0] *)
+Example C18_relabel_example :
+  let K := mkK [2; -1]%Z [ [[1; 0]; [2; 1]]; [[1; 2]; [-1; 1]; [0; 3]]; [[1; 1]; [2; -1]] ]%Z in
+  let p := [1; 2; 0]%nat in
+  let K' := mkK (kweights K) (pick [] p (kfactors K)) in
+  kshape K' = [3; 2; 2]%nat /\
+  den_k 0%Z 1%Z Z.add Z.mul K [1; 2; 0]%nat = (-3)%Z /\
+  den_k 0%Z 1%Z Z.add Z.mul K' (pick 0%nat p [1; 2; 0]%nat) = (-3)%Z /\
+  den_k 0%Z 1%Z Z.add Z.mul K' [1; 2; 0]%nat = 0%Z.
+Proof. vm_compute. repeat split; reflexivity. Qed.
